@@ -218,7 +218,7 @@ func (s *slSites) mutate(r *rand.Rand) (cat, desc string) {
 		"retarget-id", "retarget-id", "retarget-id", "retarget-id", "enum-kind", "enum-kind",
 		"number", "number", "number", "number", "string", "overlap", "overlap", "duplicate-key", "duplicate-key", "duplicate-key",
 		"enum-attribute", "interface-number", "interface-number", "oneof", "oneof", "group-position", "group-position",
-		"group-copy", "group-copy", "group-copy", "many-interfaces", "dup-nested-name", "dup-nested-name", "dup-nested-name"}
+		"group-copy", "group-copy", "group-copy", "many-interfaces", "dup-nested-name", "dup-nested-name", "dup-nested-name", "group-position", "group-position", "group-position"}
 	cat = cats[r.Intn(len(cats))]
 	switch cat {
 	case "clear-submessage":
